@@ -482,14 +482,31 @@ def normalize_module_trees(modules: Dict[str, ast.Module]) -> List[str]:
         for n in c.body:
             if isinstance(n, (ast.FunctionDef, ast.AsyncFunctionDef)):
                 method_owner.setdefault(n.name, []).append(cn)
+    module_imports: Dict[str, Set[str]] = {}
+    for mn, m in modules.items():
+        names: Set[str] = set()
+        for n in ast.walk(m):
+            if isinstance(n, ast.ImportFrom):
+                names |= {a.asname or a.name for a in n.names}
+            elif isinstance(n, ast.Import):
+                names |= {(a.asname or a.name).split(".")[0] for a in n.names}
+        module_imports[mn] = names
     module_funcs: Dict[str, List[str]] = {}
     for mn, m in modules.items():
         for n in m.body:
             if isinstance(n, (ast.FunctionDef, ast.AsyncFunctionDef)):
                 module_funcs.setdefault(n.name, []).append(mn)
 
+    from .known_names import KNOWN_NAMES
+
     def private(name: str) -> bool:
-        return name.startswith("_") and not (name.startswith("__") and name.endswith("__")) and name not in KEEP
+        """candidate for inlining: a private helper that is no rule anchor, or any function (public too) whose name did not
+        exist when the rules were written"""
+        if name.startswith("__") and name.endswith("__"):
+            return False
+        if name in KEEP:
+            return False
+        return name.startswith("_") or name not in KNOWN_NAMES
 
     for _pass in range(MAX_PASSES):
         any_change = False
@@ -540,7 +557,33 @@ def normalize_module_trees(modules: Dict[str, ast.Module]) -> List[str]:
                                 d = [n for n in modules[mn].body if isinstance(n, ast.FunctionDef) and n.name == nm]
                                 if d and d[0] is not fn and _inlinable_def(d[0]) and not _calls(d[0], nm):
                                     return d[0], False, None
+                            # a new helper defined in another module of the package and imported by name
+                            owners_m = module_funcs.get(nm) or []
+                            if private(nm) and len(owners_m) == 1 and owners_m[0] != mn and nm not in non_call_refs and nm not in closures \
+                                    and nm not in method_owner and nm in module_imports.get(mn, ()):
+                                d = [n for n in modules[owners_m[0]].body if isinstance(n, ast.FunctionDef) and n.name == nm]
+                                if d and _inlinable_def(d[0]) and not _calls(d[0], nm):
+                                    return d[0], False, None
                             return None
+                        if isinstance(f, ast.Attribute) and _plain_chain(f.value) and not (
+                                isinstance(f.value, ast.Name) and self_name and f.value.id == self_name and cls is not None):
+                            # a new helper method called on another object (field._env_lookup()): unique definition in the package
+                            nm = f.attr
+                            if not private(nm) or nm in non_call_refs or nm in module_funcs:
+                                return None
+                            owners = method_owner.get(nm) or []
+                            if len(owners) != 1:
+                                return None
+                            oc = class_defs[owners[0]]
+                            d = [n for n in oc.body if isinstance(n, ast.FunctionDef) and n.name == nm]
+                            if not d or d[0] is fn or not _inlinable_def(d[0]) or _calls(d[0], nm):
+                                return None
+                            decos = [ast.unparse(x) for x in d[0].decorator_list]
+                            if "staticmethod" in decos:
+                                return d[0], False, None
+                            if isinstance(f.value, ast.Name) and f.value.id in module_imports.get(mn, ()):     # module.function(...)
+                                return None
+                            return d[0], True, f.value
                         if isinstance(f, ast.Attribute) and isinstance(f.value, ast.Name) and self_name and f.value.id == self_name and cls is not None:
                             nm = f.attr
                             if not private(nm) or nm in non_call_refs:
